@@ -467,6 +467,15 @@ func (self *VM) Wait() (coreNum uint, i *value.VmInterrupt) {
 					self.Cores.Lock.RUnlock()
 
 					self.Cores.Lock.Lock()
+					// Recompute under the write lock: a core may have been spawned since the read lock was released.
+					newCores = make([]Core, 0)
+					for _, coreIter := range self.Cores.Cores {
+						if coreIter.Corenum == core.Corenum {
+							continue
+						}
+
+						newCores = append(newCores, coreIter)
+					}
 					self.Cores.Cores = newCores
 					self.Cores.Lock.Unlock()
 
